@@ -92,7 +92,7 @@ def frozen_dataclass(
 
         new_class = dataclass(**args)(cls_)  # slots = True will create a new class!
 
-        def copy_with(self, **kwargs: Any) -> T:
+        def copy_with(self, /, **kwargs: Any) -> T:
             """
                 Creates a new immutable instance that by copying all fields of this instance replaced by the new values.
                 Keep in mind that this is a shallow copy!
@@ -100,7 +100,7 @@ def frozen_dataclass(
 
             return replace(self, **kwargs)
 
-        def deep_copy_with(self, **kwargs: Any) -> T:
+        def deep_copy_with(self, /, **kwargs: Any) -> T:
             """
                 Creates a new immutable instance that by deep copying all fields of
                 this instance replaced by the new values.
